@@ -111,6 +111,34 @@ def run_checks(protos):
             r = roundtrip(providedBy(ob), 2)
             if ifset(r) != ifset(providedBy(ob)):
                 bad.append(('provides-history', 'instance declaration with history unpickles providing %r instead of %r' % (ifset(r), ifset(providedBy(ob)))))
+    # an instance declaration made while the class implied one of its interfaces, the class (or its base) re-declared
+    # afterwards: the copy must provide what the live declaration provides NOW
+    from zope.interface import classImplements, classImplementsOnly
+    for who in ('class', 'base'):
+        for how in ('only', 'more'):
+            n += 1
+            hb = type('HistBase', (object,), {'__module__': fx.__name__})
+            hc = type('HistChild', (hb,), {'__module__': fx.__name__})
+            setattr(fx, 'HistBase', hb)
+            setattr(fx, 'HistChild', hc)
+            classImplements(hb if who == 'base' else hc, fx.IA)
+            ob = hc()
+            directlyProvides(ob, fx.IA, fx.IMarker)
+            keep = providedBy(ob)
+            if how == 'only':
+                classImplementsOnly(hb if who == 'base' else hc, fx.IC)
+            else:
+                classImplements(hb if who == 'base' else hc, fx.IC)
+            for proto in (0, 2, pickle.HIGHEST_PROTOCOL):
+                p = providedBy(ob)
+                r = roundtrip(p, proto)
+                if ifset(r) != ifset(p):
+                    bad.append(('provides-after-class-redeclaration', 'instance declaration made while the %s implied one of its interfaces, %s re-declared (%s): '
+                                'the live declaration provides %r, its unpickled copy %r' % (who, who, how, ifset(p), ifset(r))))
+                o2 = roundtrip(ob, proto)
+                if ifset(providedBy(o2)) != ifset(providedBy(ob)):
+                    bad.append(('object-after-class-redeclaration', 'object declared before its %s was re-declared (%s) provides %r, its unpickled copy %r' % (
+                        who, how, ifset(providedBy(ob)), ifset(providedBy(o2)))))
     # declaration history before pickling: also/noLonger
     ob = fx.Adds()
     alsoProvides(ob, fx.IMarker)
